@@ -146,54 +146,117 @@ def extract_class(node, file):
         if isinstance(st, ast.Assign) and len(st.targets) == 1 and isinstance(st.targets[0], ast.Name) \
                 and isinstance(st.value, ast.Name) and st.value.id in ci.states:
             ci.alias[st.targets[0].id] = st.value.id
+    # class-level constant sequences (`_ON_STOPPED = (notify_stopped, send_status_stopped)`), usable in outputs= and as loop ranges
+    consts = {}
     for st in node.body:
-        if isinstance(st, ast.Expr) and isinstance(st.value, ast.Call):
-            c = st.value
-            if isinstance(c.func, ast.Attribute) and c.func.attr == "upon":
-                src = ci.canon(_name(c.func.value, "state", ci))
-                inp = enter = None
-                outs = None
-                collector = None
-                pos = list(c.args)
-                if pos:
-                    inp = _name(pos[0], "input", ci)
-                if len(pos) > 1:
-                    enter = ci.canon(_name(pos[1], "enter", ci))
-                if len(pos) > 2:
-                    outs = pos[2]
-                if len(pos) > 3:
-                    collector = pos[3]
-                for k in c.keywords:
-                    if k.arg == "input":
-                        inp = _name(k.value, "input", ci)
-                    elif k.arg == "enter":
-                        enter = ci.canon(_name(k.value, "enter", ci))
-                    elif k.arg == "outputs":
-                        outs = k.value
-                    elif k.arg == "collector":
-                        collector = k.value
-                    else:
-                        raise AnalysisError("%s:%d: unknown upon() keyword %s" % (file, st.lineno, k.arg))
-                if outs is None:
-                    outs_l = []
-                elif isinstance(outs, (ast.List, ast.Tuple)):
-                    outs_l = [_name(e, "output", ci) for e in outs.elts]
+        if isinstance(st, ast.Assign) and len(st.targets) == 1 and isinstance(st.targets[0], ast.Name) \
+                and isinstance(st.value, (ast.List, ast.Tuple, ast.BinOp)):
+            consts[st.targets[0].id] = st.value
+
+    def seq(e, env, depth=0):
+        """elements of a literal sequence expression: list/tuple displays, class-level constants, `+` concatenation, *splat"""
+        if depth > 8:
+            raise AnalysisError("%s:%d: sequence expression in %s too deeply nested" % (file, e.lineno, ci.name))
+        if isinstance(e, (ast.List, ast.Tuple)):
+            out = []
+            for x in e.elts:
+                if isinstance(x, ast.Starred):
+                    out.extend(seq(x.value, env, depth + 1))
                 else:
-                    raise AnalysisError("%s:%d: outputs= of an upon() in %s is not a literal list "
-                                        "(unsupported idiom)" % (file, st.lineno, ci.name))
-                if src not in ci.states:
-                    raise AnalysisError("%s:%d: upon() on unknown state %s in %s" % (file, st.lineno, src, ci.name))
-                if inp not in ci.inputs:
-                    raise AnalysisError("%s:%d: upon() with unknown input %s in %s" % (file, st.lineno, inp, ci.name))
-                if enter not in ci.states:
-                    raise AnalysisError("%s:%d: upon() entering unknown state %s in %s" % (file, st.lineno, enter, ci.name))
-                for o in outs_l:
-                    if o not in ci.outputs:
-                        raise AnalysisError("%s:%d: upon() lists unknown output %s in %s" % (file, st.lineno, o, ci.name))
-                if (src, inp) in ci.rows:
-                    raise AnalysisError("%s:%d: duplicate row (%s, %s) in %s" % (file, st.lineno, src, inp, ci.name))
-                cname = dotted(collector) if collector is not None else None
-                ci.rows[(src, inp)] = Row(src, inp, enter, outs_l, cname, st, file)
+                    out.append(x)
+            return out
+        if isinstance(e, ast.BinOp) and isinstance(e.op, ast.Add):
+            return seq(e.left, env, depth + 1) + seq(e.right, env, depth + 1)
+        if isinstance(e, ast.Name) and e.id in env and not isinstance(env[e.id], ast.Name):
+            return seq(env[e.id], env, depth + 1)
+        if isinstance(e, ast.Name) and e.id in consts:
+            return seq(consts[e.id], env, depth + 1)
+        if isinstance(e, ast.Call) and isinstance(e.func, ast.Name) and e.func.id in ("list", "tuple") and len(e.args) == 1:
+            return seq(e.args[0], env, depth + 1)
+        raise AnalysisError("%s:%d: sequence expression of an upon()/loop in %s is not a literal (unsupported idiom)" % (
+            file, getattr(e, "lineno", 0), ci.name))
+
+    def nm(n, what, env):
+        if isinstance(n, ast.Name) and n.id in env and isinstance(env[n.id], ast.Name):
+            n = env[n.id]
+        return _name(n, what, ci)
+
+    processed = set()
+
+    def do_upon(st, env):
+        c = st.value
+        processed.add(id(c))
+        src = ci.canon(nm(c.func.value, "state", env))
+        inp = enter = None
+        outs = None
+        collector = None
+        pos = list(c.args)
+        if pos:
+            inp = nm(pos[0], "input", env)
+        if len(pos) > 1:
+            enter = ci.canon(nm(pos[1], "enter", env))
+        if len(pos) > 2:
+            outs = pos[2]
+        if len(pos) > 3:
+            collector = pos[3]
+        for k in c.keywords:
+            if k.arg == "input":
+                inp = nm(k.value, "input", env)
+            elif k.arg == "enter":
+                enter = ci.canon(nm(k.value, "enter", env))
+            elif k.arg == "outputs":
+                outs = k.value
+            elif k.arg == "collector":
+                collector = k.value
+            else:
+                raise AnalysisError("%s:%d: unknown upon() keyword %s" % (file, st.lineno, k.arg))
+        outs_l = [] if outs is None else [nm(e, "output", env) for e in seq(outs, env)]
+        if src not in ci.states:
+            raise AnalysisError("%s:%d: upon() on unknown state %s in %s" % (file, st.lineno, src, ci.name))
+        if inp not in ci.inputs:
+            raise AnalysisError("%s:%d: upon() with unknown input %s in %s" % (file, st.lineno, inp, ci.name))
+        if enter not in ci.states:
+            raise AnalysisError("%s:%d: upon() entering unknown state %s in %s" % (file, st.lineno, enter, ci.name))
+        for o in outs_l:
+            if o not in ci.outputs:
+                raise AnalysisError("%s:%d: upon() lists unknown output %s in %s" % (file, st.lineno, o, ci.name))
+        if (src, inp) in ci.rows:
+            raise AnalysisError("%s:%d: duplicate row (%s, %s) in %s" % (file, st.lineno, src, inp, ci.name))
+        cname = dotted(collector) if collector is not None else None
+        ci.rows[(src, inp)] = Row(src, inp, enter, outs_l, cname, st, file)
+
+    def is_upon(st):
+        return isinstance(st, ast.Expr) and isinstance(st.value, ast.Call) and isinstance(st.value.func, ast.Attribute) \
+            and st.value.func.attr == "upon"
+
+    def do_block(body, env):
+        for st in body:
+            if is_upon(st):
+                do_upon(st, env)
+            elif isinstance(st, ast.For) and any(is_upon(x) for x in ast.walk(st)):
+                # `for inp in (a, b, c): S.upon(inp, ...)`: unrolled over the literal range
+                if st.orelse:
+                    raise AnalysisError("%s:%d: for/else around upon() in %s (unsupported idiom)" % (file, st.lineno, ci.name))
+                for el in seq(st.iter, env):
+                    env2 = dict(env)
+                    if isinstance(st.target, ast.Name):
+                        env2[st.target.id] = el
+                    elif isinstance(st.target, ast.Tuple) and isinstance(el, (ast.Tuple, ast.List)) \
+                            and len(el.elts) == len(st.target.elts) and all(isinstance(t, ast.Name) for t in st.target.elts):
+                        for t, v in zip(st.target.elts, el.elts):
+                            env2[t.id] = v
+                    else:
+                        raise AnalysisError("%s:%d: loop target around upon() in %s (unsupported idiom)" % (file, st.lineno, ci.name))
+                    do_block(st.body, env2)
+
+    do_block(node.body, {})
+    # every upon() written in the class body must have been understood (rows built inside if/with/try/comprehensions are not)
+    for st in node.body:
+        if isinstance(st, (ast.FunctionDef, ast.AsyncFunctionDef)):
+            continue
+        for x in ast.walk(st):
+            if isinstance(x, ast.Call) and isinstance(x.func, ast.Attribute) and x.func.attr == "upon" and id(x) not in processed:
+                raise AnalysisError("%s:%d: upon() in %s built in a way the extractor does not understand" % (file, x.lineno, ci.name))
     if ci.initial is None:
         raise AnalysisError("%s: machine %s has no initial state" % (file, ci.name))
     return ci
